@@ -1,5 +1,6 @@
 #!/bin/bash
 # bin/check.sh <Cxx> <quick|thorough>   |   bin/check.sh replay <file>
+# (a replay file can also be re-executed as a plain unit test:  REPLAY=<file> go test -tags verif -vet=off -run TestReplay ./checks)
 # Rebuilds the checker from /repo's current working tree (build tag `verif`), runs one check,
 # writes /verif/evidence/<Cxx>.json. Exit 0 = held on everything explored (KNOWN-FINDING lines
 # possible), 1 = VIOLATION line printed, 2 = harness error / vacuous run.
